@@ -4,7 +4,7 @@ from typing import Dict, Optional, Tuple
 
 from ..flow import find_calls, kwarg
 from ..model import dotted_of, short, walk_function_body
-from ..rules import err, lin, pre
+from ..rules import err, lin, pre, stack
 from ..scopes import PKG
 
 CLAIM = (
@@ -40,6 +40,7 @@ def run(ctx) -> None:
     ctx.rule("INTER", "set constraints are intersected (kept iff counted once per source); patterns de-duplicated", floor=3)
     ctx.rule("PRE-LEN", "LenConstraint precondition established at construction sites", floor=2)
     ctx.rule("OWN", "only the own invariants of the class / constrained primitive are read", floor=5)
+    ctx.rule("STACK-ORDER", "passes that stack constraints along the hierarchy visit parents before children (topological order)", floor=2)
     ctx.rule("ERR1", "errors of the inference read", floor=8)
     ctx.rule("ERR1v", "values unused while error untested", floor=5)
     ctx.rule("ERR2", "no error-returning call dropped", floor=0)
@@ -52,6 +53,7 @@ def run(ctx) -> None:
     for m in p.modules.values():
         if m.name.startswith(f"{PKG}.infer_for_schema"):
             for f in m.functions.values():
+                stack.check_stack_order(ctx, f, "STACK-ORDER")
                 err.check_err12(ctx, f, "ERR1", "ERR1v", "ERR2")
                 err.check_err3(ctx, f, "ERR3")
 
